@@ -10,6 +10,9 @@ property whose anchor file contains it.
     update under the second are not atomic.
  H3 swallowed error: the Err outcome of a workspace call reaches a non-error return of the enclosing function (the
     error is logged or ignored instead of propagated).
+ H5 configuration field swapped: a function stops reading one configuration field (of a `*Config` / `Rate` type) and starts
+    reading another field of the same type - the shape of "the get_block limit is taken from the push_tx setting". Uses that
+    are merely added, removed or moved to another function are not reported.
  H4 process-wide state: a `static` (incl. lazy / thread-local cells) in a crate the property is anchored in, other than
     tracing call sites, protobuf descriptors and metrics registries - a decision or verification result remembered in
     process-wide state is shared by every caller, chain, epoch and committee that runs in the process.
@@ -131,6 +134,69 @@ def static_sites(ctx, files):
     return out
 
 
+def _walk_fields(o, out):
+    if isinstance(o, dict):
+        if "f" in o and "n" in o and "o" in o and isinstance(o["o"], str):
+            out.append((o["o"], o["n"]))
+        for v in o.values():
+            _walk_fields(v, out)
+    elif isinstance(o, list):
+        for v in o:
+            _walk_fields(v, out)
+
+
+def config_uses(ctx):
+    """{root function: {"<Owner>.<field>": count}} for reads of fields of configuration types, derive impls excluded"""
+    from collections import Counter, defaultdict
+    uses = defaultdict(Counter)
+    for f in list(ctx.F.fns) + list(getattr(ctx.F, "helpers", {}).values()):
+        if f.in_testonly():
+            continue
+        r = f
+        while r.parent is not None:
+            r = r.parent
+        if r.item.impl_trait is not None and r.item.impl_trait.rsplit("::", 1)[-1] in ("Debug", "Clone", "PartialEq", "Eq", "Hash", "Default", "ProtoFmt", "ProtoRepr"):
+            continue
+        out = []
+        _walk_fields(f.blocks, out)
+        for o, n in out:
+            if o.endswith("Config") or o.endswith("limiter::Rate"):
+                uses[origin_root(f.qname)]["%s.%s" % (o, n)] += 1
+    return uses
+
+
+def config_swaps(ctx, files):
+    tabp = os.path.join(VERIF, "tables", "config_uses.json")
+    if not os.path.exists(tabp):
+        return []
+    ctx.tables_used.add("config_uses.json")
+    tab = json.load(open(tabp))["uses"]
+    cur = config_uses(ctx)
+    crates = set(c for c, d in CRATE_DIR.items() if any(f.startswith(d) for f in files))
+
+    def fty(key):
+        owner, name = key.rsplit(".", 1)
+        ad = ctx.F.adts.get(owner)
+        for v in (ad or {}).get("variants", []):
+            for fl in v["fields"]:
+                if fl["name"] == name:
+                    return ad["_types"][fl["t"]].s
+        return None
+    out = []
+    for fn, old in sorted(tab.items()):
+        if fn.lstrip("<").split("::", 1)[0] not in crates or fn not in cur:
+            continue
+        now = cur[fn]
+        gone = [k for k, n in old.items() if now.get(k, 0) < n]
+        new = [k for k, n in now.items() if old.get(k, 0) < n]
+        for g in gone:
+            for k in new:
+                if fty(g) is not None and fty(g) == fty(k) and g.rsplit(".", 1)[0] == k.rsplit(".", 1)[0]:
+                    out.append(("config-swap", "%s | %s -> %s" % (fn, g.rsplit("::", 1)[-1], k.rsplit("::", 1)[-1]), None,
+                                "%s reads %s where the reviewed code read %s (same type %s)" % (fn.rsplit("::", 2)[-2] + "::" + fn.rsplit("::", 1)[-1], k.rsplit("::", 1)[-1], g.rsplit("::", 1)[-1], fty(g)[:40])))
+    return out
+
+
 def rule_hazards(ctx):
     R = "H"
     prop = ctx.prop
@@ -141,7 +207,7 @@ def rule_hazards(ctx):
     for e in tab:
         allowed[(e["kind"], e["key"])] = e
     found = {}
-    for kind, key, where, detail in sites(ctx, files) + static_sites(ctx, files):
+    for kind, key, where, detail in sites(ctx, files) + static_sites(ctx, files) + config_swaps(ctx, files):
         found.setdefault((kind, key), []).append((where, detail))
     n = 0
     # a reviewed site that moved into another function (helper extracted / renamed): same kind and same field / callee,
@@ -174,6 +240,7 @@ def rule_hazards(ctx):
                     "take-then-await": "if the await is cancelled, the state that was moved out is lost",
                     "double-lock": "a decision made under the first acquisition can be stale when the second one acts on it",
                     "swallowed-error": "the caller continues as if the operation had succeeded",
+                    "config-swap": "the limit / rate / key / timeout applied here is no longer the one configured for it",
                     "static-state": "what it remembers is shared by every caller in the process (all chains, epochs, committees, connections)"}[kind]), where)
     ctx.counts["H:sites in scope"] = n
 
